@@ -127,6 +127,10 @@ pub enum PortAction<'a> {
 
 const MAX_ACTIONS: usize = 2;
 
+/// Largest TLV that can ever be appended to an Announce message (header and
+/// announce body take 64 of the [`MAX_DATA_LEN`](crate::port::MAX_DATA_LEN) octets).
+const MAX_FORWARDED_TLV_SIZE: usize = crate::port::MAX_DATA_LEN - 64;
+
 /// An Iterator over [`PortAction`]s
 ///
 /// These are returned by [`Port`](`super::Port`) when ever the library needs
@@ -187,7 +191,9 @@ impl<'a> Iterator for PortActionIterator<'a> {
     fn next(&mut self) -> Option<Self::Item> {
         self.internal.next().or_else(|| loop {
             let tlv = self.tlvs.next()?;
-            if tlv.tlv_type.announce_propagate() {
+            // A TLV that cannot fit into any Announce is not handed out: a provider that
+            // keeps TLVs in arrival order would never get past it.
+            if tlv.tlv_type.announce_propagate() && tlv.wire_size() <= MAX_FORWARDED_TLV_SIZE {
                 return Some(PortAction::ForwardTLV {
                     tlv: ForwardedTLV {
                         tlv,
